@@ -157,10 +157,19 @@ def observe_all(ex, W, tag):
     return allw, flags
 
 
-def observe_triggered(ex, W, tag):
+def observe_triggered(ex, W, tag, first=None):
     obj = W.obj
+    # `first`: the query made BEFORE all_waveforms is looked at (the catch-up loops of
+    # waveforms / is_hit must not rely on an earlier all_waveforms call)
+    if first == 'waveforms':
+        trig = obj.waveforms
+    elif first == 'is_hit':
+        hit_first = bool(obj.is_hit)
     allw, flags = observe_all(ex, W, tag)
-    trig = obj.waveforms
+    if first != 'waveforms':
+        trig = obj.waveforms
+    if first == 'is_hit':
+        ex.same(hit_first, len(trig) > 0, tag + ':is_hit(asked-first)==some-triggered')
     # path-wise: the set of triggered waveforms is concrete, the oracle flags may be symbolic
     ids = [id(w) for w in trig]
     k = 0
@@ -201,6 +210,10 @@ def h_history(ex):
             observe_all(ex, W, tag)
         elif op == 'Qw':
             observe_triggered(ex, W, tag)
+        elif op == 'Qwf':
+            observe_triggered(ex, W, tag, first='waveforms')
+        elif op == 'Qhf':
+            observe_triggered(ex, W, tag, first='is_hit')
         elif op.startswith('Qfull'):
             times = grid(op[5:], WINDOWS)
             wave = obj.full_waveform(ex.const_array(times))
@@ -305,6 +318,7 @@ def _cases(tier):
         pick = [['RA', 'Qall', 'RB'], ['RA', 'Qw', 'RB'], ['RA', 'RB', 'C'], ['RA', 'CN', 'RB'],
                 ['RD', 'Qw', 'RA'], ['RA', 'Qfullw4', 'RH'], ['RC', 'Qdurw2', 'RA'],
                 ['RA', 'Qw', 'C', 'RB'], ['RA', 'RB', 'Qw', 'CN'], ['RB', 'Qall', 'RA', 'Qw'],
+                ['RA', 'Qwf', 'RB', 'Qwf'], ['RA', 'Qhf', 'RD', 'Qhf'], ['RB', 'Qwf', 'C', 'RA', 'Qwf'],
                 ['RA', 'RE'], ['RE', 'RA', 'Qw'], ['RA', 'RF', 'Qall'], ['RF', 'RE', 'RA']]
         for s in pick[-4:]:
             out.append({'kind': 'antenna', 'noisy': False, 'seq': s})
@@ -319,6 +333,10 @@ def _cases(tier):
                 for kind, noisy, lead in (('antenna', False, 0.0), ('antenna', True, 0.0),
                                           ('system', False, 0.0), ('system', True, 2.0)):
                     out.append({'kind': kind, 'noisy': noisy, 'seq': s, 'lead': lead})
+        for s in _seqs(['RA', 'RB', 'Qwf', 'Qhf', 'C'], 4):
+            if _useful(s) and ('Qwf' in s or 'Qhf' in s) and s[0].startswith('R'):
+                out.append({'kind': 'antenna', 'noisy': False, 'seq': s})
+                out.append({'kind': 'system', 'noisy': False, 'seq': s, 'lead': 0.0})
         for s in _seqs(['RA', 'RB', 'Qall', 'Qw', 'C', 'CN'], 4):
             if _useful(s):
                 out.append({'kind': 'antenna', 'noisy': False, 'seq': s})
